@@ -62,10 +62,12 @@ def _lg_crossing(inp):
 
 @predicate("ivcgamma_loggamma_corner_within_2^-34_ulp")
 def _lg_tail(inp):
-    """mpc_loggamma(z, prec+20, round_floor / round_ceiling) rounds an approximation (accurate to about 2^-34 ulp of the prec-bit
-    grid) in the requested direction: the direction is lost when the exact corner value is closer than that to a prec-bit number"""
+    """mpc_loggamma(z, prec+20, round_floor / round_ceiling) rounds an approximation in the requested direction: its value is
+    within one unit of the (prec+20)-bit grid of the exact corner value but not necessarily on the requested side, so the direction
+    is lost when the exact corner value is closer than 2^-20 ulp (of the prec-bit grid) to a prec-bit number (observed from 2^-27
+    ulp at 24 bits — thorough tier, steering depth 2^-28 — and from 2^-36 ulp at the quick tier's depths)"""
     k = _k(inp)
-    return _re_contain(inp) and k is not None and k <= -34
+    return _re_contain(inp) and k is not None and k <= -21
 
 
 PROPOSED_FINDINGS = [
